@@ -643,13 +643,31 @@ func manualOK(shape []pField, tm []pTmpl, val pVal) bool {
 	return any
 }
 
+func hasFloatLeaf(shape []pField) bool {
+	for _, f := range shape {
+		if f.K == "flt" || f.K == "dbl" || (isMsgKind(f.K) && hasFloatLeaf(subShapes[f.K])) {
+			return true
+		}
+	}
+	return false
+}
+
 func c19Vector(c *Ctx, raw stdjson.RawMessage) {
 	var v rewriteVec
 	if err := stdjson.Unmarshal(raw, &v); err != nil || len(v.Shape) == 0 {
 		return
 	}
 	c.Nontrivial()
-	for _, salt := range []int{0, 4} {
+	salts := []int{0, 4}
+	if hasStringLeaf(v.Shape) && !hasFloatLeaf(v.Shape) { // (other salts rotate the float tables to Inf, which a JSON template cannot say)
+		// strings of 127 and 128 bytes (tables), and every length that takes a carried-over or templated
+		// length-delimited field across the one-byte length prefix
+		salts = append(salts, 2, 3)
+		for n := 124; n <= 130; n++ {
+			salts = append(salts, strLenSalt+n)
+		}
+	}
+	for _, salt := range salts {
 		l := lift{salt}
 		// REF: the specification's own rewriting algorithm output decodes to the expected value
 		if tr, err := refDecode(v.Shape, l.encodeRecs(v.Alg, wireOpts{})); err != nil || treeString(tr) != treeString(l.treeOfAbstract(v.Shape, v.Want)) {
